@@ -642,6 +642,16 @@ def broadcast_and_apply(  # noqa: C901
                 )
 
     def all_same_offsets(nplike, inputs):
+        # a list with a custom __broadcast__ (a string) is an atom for the lists
+        # without one: equal offsets must not make them descend together
+        customs = [
+            custom_broadcast(x, behavior) is not None
+            for x in inputs
+            if isinstance(x, listtypes)
+        ]
+        if any(customs) and not all(customs):
+            return False
+
         offsets = None
         for x in inputs:
             if isinstance(
